@@ -499,6 +499,21 @@ V("C17", "vectors-setter-no-cell-from-diagonal", "mdtraj/core/trajectory.py", " 
 V("C17", "twin-vectors-setter-max-abs", "mdtraj/core/trajectory.py", "        if vectors is None or np.all(np.abs(vectors) < 1e-15):", "        if vectors is None or np.max(np.abs(vectors)) < 1e-15:", None)
 V("C01", "rst7-two-atom-box-needs-more-than-60", "mdtraj/formats/amberrst.py", "                tmp = [float(line[i : i + 12]) >= 60.0 for i in range(0, 72, 12)]", "                tmp = [float(line[i : i + 12]) > 60.0 for i in range(0, 72, 12)]", "C01-R8", "AmberRestartFile.write / ._parse")
 
+# round 13
+V("C18", "gro-read-does-not-count-frames", "mdtraj/formats/gro.py", "                frame_xyz, frame_box, frame_time = self._read_frame()\n                self._frame_index += 1\n", "                frame_xyz, frame_box, frame_time = self._read_frame()\n", "C18-R3", "GroTrajectoryFile.read")
+V("C18", "twin-gro-counts-after-append", "mdtraj/formats/gro.py", "                frame_xyz, frame_box, frame_time = self._read_frame()\n                self._frame_index += 1\n", "                frame_xyz, frame_box, frame_time = self._read_frame()\n                self._frame_index = self._frame_index + 1\n", None)
+V("C18", "lammpstrj-counts-before-the-atom-records", "mdtraj/formats/lammpstrj.py", None, None, "C18-R3", "LAMMPSTrajectoryFile.read", edits=[("        self._frame_index += 1\n        return xyz, lengths, angles", "        return xyz, lengths, angles"), ("        self._line_counter += 4\n        # --- end header ---\n", "        self._line_counter += 4\n        self._frame_index += 1\n        # --- end header ---\n")])
+V("C02", "mdcrd-selection-applied-after-stacking", "mdtraj/formats/mdcrd.py", None, None, "C02-R8", "MDCRDTrajectoryFile.read", edits=[("                coord, box = self._read()\n                if atom_indices is not None:\n                    coord = coord[atom_indices, :]\n", "                coord, box = self._read()\n"), ("        coords = np.array(coords)\n", "        coords = np.array(coords)\n        if atom_indices is not None:\n            coords = coords[:, atom_indices, :]\n")])
+V("C03", "md-join-discard-from-check-topology", "mdtraj/core/trajectory.py", "            discard_overlapping_frames=discard_overlapping_frames,\n        ),\n        trajs,", "            discard_overlapping_frames=check_topology,\n        ),\n        trajs,", "C03-R7", "join")
+V("C03", "lh5-scales-the-callers-array-again", "mdtraj/formats/lh5.py", '        Rounded = np.multiply(X, float(precision)).astype("int16")', '        X *= float(precision)\n        Rounded = X.astype("int16")\n        X /= float(precision)', "C03-R5", "Trajectory.save_lh5")
+V("C03", "twin-lh5-scale-operator", "mdtraj/formats/lh5.py", '        Rounded = np.multiply(X, float(precision)).astype("int16")', '        Rounded = (X * float(precision)).astype("int16")', None)
+V("C19", "ensure-type-zero-matches-anything", "mdtraj/utils/validation.py", "            if b is None:\n                # if the user's shape spec has a None in it, it matches anything", "            if not b:\n                # if the user's shape spec has a None in it, it matches anything", "C19-R8", "ensure_type")
+V("C19", "pdb-write-takes-first-frame-of-a-block", "mdtraj/formats/pdb/pdbfile.py", "        if ilen(topology.atoms) != len(positions):", "        if positions.ndim == 3:\n            positions = positions[0]\n        if ilen(topology.atoms) != len(positions):", "C19-R8", "PDBTrajectoryFile.write")
+V("C01", "save-hdf5-topology-only-in-mode-w", "mdtraj/core/trajectory.py", "            f.topology = self.topology\n\n    def save_lammpstrj", "            if mode == \"w\":\n                f.topology = self.topology\n\n    def save_lammpstrj", "C01-R9", "Trajectory.save_hdf5 / load_hdf5")
+V("C20", "save-returns-early-for-empty-trajectories", "mdtraj/core/trajectory.py", "        # run the saver, and return whatever output it gives\n        return saver(filename, **kwargs)", "        if self.n_frames == 0:\n            return None\n        # run the saver, and return whatever output it gives\n        return saver(filename, **kwargs)", "C20-R2", "Trajectory.save")
+V("C20", "twin-save-binds-result-first", "mdtraj/core/trajectory.py", "        # run the saver, and return whatever output it gives\n        return saver(filename, **kwargs)", "        # run the saver, and return whatever output it gives\n        result = saver(filename, **kwargs)\n        return result", None)
+V("C12", "atom-eq-ignores-the-index", "mdtraj/core/topology.py", "        if self.index != other.index:\n            return False\n        if self.element.name != other.element.name:", "        if self.element.name != other.element.name:", "C12-R1", "SelectionKeyword")
+
 # twins learnt from the independently seeded changes (the refactoring without the bug must stay silent)
 V("C04", "twin-hdf5-getter-uses-dict-get", "mdtraj/formats/hdf5.py",
   """                try:
